@@ -665,6 +665,26 @@ def _globals(run, P):
                                        why="a shared mutable object stored un-copied in "
                                            "instance state is mutated by every generator "
                                            "object and inherited by later ones")
+    # (4b) ChainMap(<parameter>, ...) kept on the object: a ChainMap writes into its first
+    # mapping, which is the caller's own
+    for m in P.repo_modules():
+        for c in m.classes.values():
+            mutated = _mutated_attrs(P, c)
+            for meth in c.methods.values():
+                for s in func_body_stmts(meth.node):
+                    if isinstance(s, ast.Assign) and isinstance(s.value, ast.Call) \
+                            and (dotted(s.value.func) or "").split(".")[-1] == "ChainMap" and s.value.args:
+                        a0 = s.value.args[0]
+                        for t in s.targets:
+                            d = dotted(t)
+                            if d and d.startswith("self.") and d[5:] in mutated:
+                                n += 1
+                                run.ob("C15.global", meth, s, not (isinstance(a0, ast.Name) and a0.id in meth.params),
+                                       construct=f"{norm(s, 70)}: the first mapping of a ChainMap that "
+                                                 f"{c.name} writes to is not one the caller handed in",
+                                       why="what one object registers lands in the caller's mapping and "
+                                           "in every other object built from it: the second interpreter "
+                                           "depends on what the first one did")
     # (5) objects created when a module is loaded live as long as the process: the methods
     # of their classes must not change them
     for m in P.repo_modules():
